@@ -13,6 +13,10 @@ type Term struct {
 	Const bool
 	V     *big.Int // value when Const (unsigned representation; bool 0/1)
 	S     string   // SMT-LIB text
+	// structure kept for a few simplifications
+	zextOf     *Term // this = zero_extend(zextOf)
+	exOf       *Term // this = extract[exHi:exLo](exOf)
+	exHi, exLo int
 }
 
 var bigOne = big.NewInt(1)
@@ -343,7 +347,10 @@ func ZExt(a *Term, w int) *Term {
 	if a.Const {
 		return BV(w, a.V)
 	}
-	return &Term{W: w, S: fmt.Sprintf("((_ zero_extend %d) %s)", w-a.W, a.S)}
+	if a.zextOf != nil {
+		a = a.zextOf
+	}
+	return &Term{W: w, S: fmt.Sprintf("((_ zero_extend %d) %s)", w-a.W, a.S), zextOf: a}
 }
 func SExt(a *Term, w int) *Term {
 	if w == a.W {
@@ -364,9 +371,27 @@ func Extract(a *Term, hi, lo int) *Term {
 	if a.Const {
 		return BV(hi-lo+1, new(big.Int).Rsh(a.V, uint(lo)))
 	}
-	return &Term{W: hi - lo + 1, S: fmt.Sprintf("((_ extract %d %d) %s)", hi, lo, a.S)}
+	if a.zextOf != nil {
+		in := a.zextOf
+		if hi < in.W {
+			return Extract(in, hi, lo)
+		}
+		if lo >= in.W {
+			return BVu(hi-lo+1, 0)
+		}
+	}
+	if a.exOf != nil {
+		return Extract(a.exOf, a.exLo+hi, a.exLo+lo)
+	}
+	return &Term{W: hi - lo + 1, S: fmt.Sprintf("((_ extract %d %d) %s)", hi, lo, a.S), exOf: a, exHi: hi, exLo: lo}
 }
 func Concat(a, b *Term) *Term {
+	if a.exOf != nil && b.exOf != nil && a.exOf == b.exOf && a.exLo == b.exHi+1 {
+		return Extract(a.exOf, a.exHi, b.exLo)
+	}
+	if a.exOf != nil && b.exOf == nil && !b.Const && a.exOf == b && a.exLo == b.W {
+		// extract[hi:W](t) ++ t  (cannot happen: extract beyond width) - kept for symmetry
+	}
 	if a.Const && b.Const {
 		return BV(a.W+b.W, new(big.Int).Or(new(big.Int).Lsh(a.V, uint(b.W)), b.V))
 	}
